@@ -389,12 +389,12 @@ func (g *FuncGen) execAppend(x *ssa.Call, st *State) error {
 		// in place: k stores; fresh: array equal to prefix then k stores
 		inp := dstOld
 		for j := 0; j < k; j++ {
-			inp = fmt.Sprintf("(store %s (+ (s_off %s) (s_len %s) %d) (select %s (+ (s_off %s) %d)))", inp, s, s, j, srcArr, t, j)
+			inp = fmt.Sprintf("(store %s (sidx %s (+ (s_len %s) %d)) (select %s (sidx %s %d)))", inp, s, s, j, srcArr, t, j)
 		}
 		fr := g.freshConst("append.newarr", "(Array Int "+es+")")
-		g.assert(fmt.Sprintf("(forall ((i Int)) (! (=> (and (<= 0 i) (< i (s_len %s))) (= (select %s i) (select %s (+ (s_off %s) i)))) :pattern ((select %s i))))", s, fr, dstOld, s, fr))
+		g.assert(fmt.Sprintf("(forall ((i Int)) (! (=> (and (<= 0 i) (< i (s_len %s))) (= (select %s i) (select %s (sidx %s i)))) :pattern ((select %s i))))", s, fr, dstOld, s, fr))
 		for j := 0; j < k; j++ {
-			g.assert(fmt.Sprintf("(= (select %s (+ (s_len %s) %d)) (select %s (+ (s_off %s) %d)))", fr, s, j, srcArr, t, j))
+			g.assert(fmt.Sprintf("(= (select %s (+ (s_len %s) %d)) (select %s (sidx %s %d)))", fr, s, j, srcArr, t, j))
 		}
 		g.assert(fmt.Sprintf("(= %s (ite %s (store %s (s_arr %s) %s) (store %s %s %s)))", nv, inPlace, cur, s, inp, cur, newArr, fr))
 	} else {
@@ -526,7 +526,7 @@ func (g *FuncGen) execStringConv(x *ssa.Convert, st *State) {
 			em := g.elemMap(sl.Elem())
 			cur := g.heapGet(st.heap, em.Name, em.Sort)
 			g.assert(fmt.Sprintf("(= (strlen %s) (s_len %s))", r, v))
-			g.assert(fmt.Sprintf("(forall ((i Int)) (! (=> (and (<= 0 i) (< i (s_len %s))) (= %s (select (select %s (s_arr %s)) (+ (s_off %s) i)))) :pattern (%s)))", v, g.strByte(r, "i"), cur, v, v, g.strByte(r, "i")))
+			g.assert(fmt.Sprintf("(forall ((i Int)) (! (=> (and (<= 0 i) (< i (s_len %s))) (= %s (select (select %s (s_arr %s)) (sidx %s i)))) :pattern (%s)))", v, g.strByte(r, "i"), cur, v, v, g.strByte(r, "i")))
 			// the same bytes give the same string
 			f := g.ufun("str.ofbytes", "((Array Int Int) Int Int) Str")
 			_ = f
